@@ -12,6 +12,7 @@ CONSTANTS
  MaxSched = 0
  MaxGen = 1
  CfgIds = {2}
+ Modes = {"lazy"}
  Dump = "none"
 INVARIANT InvStateOK
 ACTION_CONSTRAINT ActionProps
